@@ -402,7 +402,7 @@ def is_pds_group(items):
             # "integer" as the encoder documents and tests it: isinstance(v, int), so Python's True/False count too
             if isinstance(v, int) or (isinstance(v, pvl.Quantity) and isinstance(v.value, int)):
                 return False
-        names.append(k)
+        names.append(k.upper())      # PDS3 writes names in upper case: 'a' and 'A' are the same keyword in the label
     return len(names) == len(set(names))
 
 
